@@ -38,7 +38,13 @@ Stmts == <<
   (* 8 *) <<[t |-> "for", tag |-> "for", var |-> X, coll |-> R12, body |-> <<[t |-> "assign", name |-> Y, e |-> Var(X)]>>]>>,
   (* 9 *) <<[t |-> "capture", name |-> Y, body |-> <<[t |-> "for", tag |-> "for", var |-> X, coll |-> R12, body |-> <<Ob(Var(X))>>]>>]>>,
   (* 10: a variable that happens to be called forloop is an ordinary variable outside loops *)
-          <<[t |-> "assign", name |-> B_forloop, e |-> Lit(Str(<<102>>))]>>
+          <<[t |-> "assign", name |-> B_forloop, e |-> Lit(Str(<<102>>))]>>,
+  (* 11: the loop record assigned in the first iteration holds the values of that iteration afterwards *)
+          <<[t |-> "for", tag |-> "for", var |-> X, coll |-> R12,
+             body |-> <<[t |-> "if", branches |-> <<[c |-> [t |-> "prop", e |-> Var(B_forloop), name |-> B_first],
+                                                     body |-> <<[t |-> "assign", name |-> <<102>>, e |-> Var(B_forloop)]>>]>>]>>],
+            Ob([t |-> "prop", e |-> Var(<<102>>), name |-> B_index]), Ob([t |-> "prop", e |-> Var(<<102>>), name |-> B_last]),
+            Ob([t |-> "prop", e |-> Var(<<102>>), name |-> B_rindex]), T(<<59>>)>>
 >>
 NS == Len(Stmts)
 
@@ -67,6 +73,7 @@ Decl(ix, s) ==
                    [] i = 8 -> [s EXCEPT !.y = IntV(2)]
                    [] i = 9 -> [s EXCEPT !.y = Str(<<49, 50>>)]
                    [] i = 10 -> [s EXCEPT !.fl = Str(<<102>>)]
+                   [] i = 11 -> [s EXCEPT !.out = @ \o <<49>> \o <<102, 97, 108, 115, 101>> \o <<50, 59>>]       \* 1 false 2 ;
        IN  Decl(Tail(ix), s2)
 DeclOut(ix) == Decl(ix \o <<6>>, [x |-> Nil, y |-> Nil, fl |-> Nil, out |-> <<>>]).out
 
